@@ -49,7 +49,10 @@ for pid in sorted({k[0] for k in table}):
                 p = os.path.join(root, f)
                 if f in ('patch.diff',) or not is_text(p):
                     continue
-                t = open(p).read()
+                try:
+                    t = open(p, encoding='utf-8').read()
+                except UnicodeDecodeError:
+                    continue
                 t2 = t.replace('%s/%d' % (top, k), dst).replace(top + '/', dst + '/shared/').replace(top, dst + '/shared')
                 if f.endswith('.sh') and root == dst:
                     t2 = re.sub(r'\.\./([\w.-]+)', lambda m: ('shared/' + m.group(1)) if m.group(1) in shared else m.group(0), t2)
